@@ -1004,6 +1004,9 @@ def _create_socks_endpoint(reactor, control_protocol, socks_config=None):
     for p in list(unix_ports) + list(tcp_ports):  # prefer unix-ports
         if socks_config and p != socks_config:
             continue
+        if p == '0':
+            # "SocksPort 0" means: no listener
+            continue
         try:
             socks_endpoint = _endpoint_from_socksport_line(reactor, p)
         except Exception as e:
